@@ -116,7 +116,7 @@ def translate():
     return json.loads(p.stdout)
 
 
-TABLE_OWNERS = {"ext": ("C16",), "detectors": ("C14",)}   # the properties whose theorems are stated over the table
+TABLE_OWNERS = {"ext": ("C16",), "detectors": ("C14",), "severity": ("C11",)}   # the properties whose theorems are stated over the table
 
 
 def live_tables_check(tr, tb, prop=None):
@@ -144,8 +144,23 @@ def live_tables_check(tr, tb, prop=None):
         else:
           raise Broken("the detector list the theorems were checked over is not DETECTOR_FACTORIES of the running implementation",
                      f"generated: {[n for n, _ in tr['detectors']]}\nlive: {tb.get('detectors_live')}\ntranslator: {tr.get('errors', {}).get('detectors', 'ok')}")
+    # severity names: what the generated table (names, values, case rule) says about each probe spelling against what the
+    # running `BlockSeverity::from_str` says
+    def gen_sev(sp):
+        for name, val in tr["severity"]:
+            if (name.lower() == "".join(c.lower() if ord(c) < 128 else c for c in sp)) if tr["severity_case_insensitive"] else (name == sp):
+                return val
+        return None
+    sev_bad = [(sp, v, gen_sev(sp)) for sp, v in tb.get("severity_live", []) if gen_sev(sp) != v]
+    if sev_bad:
+        if prop not in TABLE_OWNERS["severity"]:
+            notes.append(f"the generated severity table differs from the live parser on {sev_bad[:5]} (spelling, live, generated); this property's theorems do not depend on it, its correspondence components decide")
+        else:
+            raise Broken("the severity table the theorems were checked over is not what the running BlockSeverity::from_str accepts",
+                         f"(spelling, live value, generated value): {sev_bad[:20]}\ntranslator: {tr.get('errors', {}).get('severity', 'ok')}")
     for t, msg in (tr.get("errors") or {}).items():
         how = {"ext": "equal to the live `language_parsers()` map (suffixes and grammar identity)",
+               "severity": "equal to the live `BlockSeverity::from_str` on every case variant of the probe spellings",
                "detectors": "equal to the live DETECTOR_FACTORIES names"}.get(t, "exercised by the correspondence components of the properties that use it")
         notes.append(f"table `{t}`: the translator could not read the source ({msg}); the last generated table is kept and is {how}")
     return notes
